@@ -290,6 +290,17 @@ Definition perm_family (sigma : otag -> list ident -> list ident) : Prop :=
 Definition session (sigma : otag -> list ident -> list ident) (ps : list (list item)) : list prog_out :=
   map (transl sigma) ps.
 
+(* ---------------------------------------------------------------- the candidate repair *)
+(* the minimal patch: `for name in sorted(new_names)` in _promote_branch_decls and `for name in
+   sorted(promoted_set)` in the while / for handlers.  Same algorithm with [sort] put after the oracle. *)
+Definition sorted_oracle (sigma : list ident -> list ident) (l : list ident) : list ident := sort (sigma l).
+
+Definition promote_fixed (sigma : list ident -> list ident) (c : construct) : list decl :=
+  promote (sorted_oracle sigma) c.
+
+Definition transl_fixed (sigma : otag -> list ident -> list ident) (p : list item) : prog_out :=
+  walk_prog (fun o c => promote_fixed (sigma o) c) p.
+
 (* ---------------------------------------------------------------- the inventory check *)
 (* unsorted set iterations of the source that this file models: (function, iterable text) *)
 Definition modelled_sites : list (text * text) :=
